@@ -77,6 +77,9 @@ type Prog struct {
 	Calls []string `json:"calls"`
 	// Style: "" / "with" (options at construction) or "set" (the setter methods of Msg and Part after construction)
 	Style string `json:"style"`
+	// Pgp: "" / "encrypted" / "signed": the PGP/MIME type of the message (WithPGPType / SetPGPType) - one flat multipart
+	// of that kind around everything; the caller supplies the parts PGP/MIME asks for
+	Pgp string `json:"pgp"`
 	// Mw: a middleware of the caller ("attach": adds an attachment once, "body": replaces the first body part once)
 	Mw string `json:"mw"`
 }
@@ -526,7 +529,14 @@ func Build(p Prog, seed int64, failSlot int, failWhen string, tmpdir string) (*B
 	} else {
 		opts = append(opts, mail.WithCharset(mail.CharsetUTF8), mail.WithMIMEVersion(mail.MIME10))
 	}
+	pgpType := map[string]mail.PGPType{"encrypted": mail.PGPEncrypt, "signed": mail.PGPSignature}[p.Pgp]
+	if p.Pgp != "" && !viaSetters {
+		opts = append(opts, mail.WithPGPType(pgpType))
+	}
 	m := mail.NewMsg(opts...)
+	if p.Pgp != "" && viaSetters {
+		m.SetPGPType(pgpType)
+	}
 	if viaSetters { // the same configuration through the setter methods
 		if e, ok := encNames[p.Enc]; ok {
 			m.SetEncoding(e)
